@@ -44,6 +44,8 @@ type c13Pod struct {
 	ns, name    string
 	ip          string
 	hostNetwork bool
+	// hostIPMode: 0 the node's address is reported; 1 not reported yet; 2 the node has a second address
+	hostIPMode  int
 	phase       core_v1.PodPhase
 	deleting    bool
 	labels      map[string]string
@@ -53,11 +55,21 @@ type c13Pod struct {
 
 const c13HostIP = "10.8.0.99"
 
+func (p *c13Pod) hostIP() string {
+	switch p.hostIPMode {
+	case 1:
+		return ""
+	case 2:
+		return "10.8.0.98"
+	}
+	return c13HostIP
+}
+
 func (p *c13Pod) object() *core_v1.Pod {
 	o := &core_v1.Pod{
 		ObjectMeta: meta_v1.ObjectMeta{Namespace: p.ns, Name: p.name, Labels: map[string]string{}, Annotations: map[string]string{}, ResourceVersion: fmt.Sprint(p.rv)},
 		Spec:       core_v1.PodSpec{HostNetwork: p.hostNetwork, NodeName: "node1"},
-		Status:     core_v1.PodStatus{PodIP: p.ip, HostIP: c13HostIP, Phase: p.phase},
+		Status:     core_v1.PodStatus{PodIP: p.ip, HostIP: p.hostIP(), Phase: p.phase},
 	}
 	for k, v := range p.labels {
 		o.Labels[k] = v
@@ -96,7 +108,7 @@ func refTagName(re *regexp.Regexp, key string) string {
 }
 
 func (c13) Run(e *Env) {
-	e.ProbeDecl("lookup-hit", "lookup-miss", "ip-reused-by-other-pod", "phase-only-update", "deletion-timestamp-update", "label-edit", "annotation-edit", "ip-changed", "ip-unset", "delete", "lookup-before-pod-exists",
+	e.ProbeDecl("host-network-pod-on-ordinary-address", "lookup-hit", "lookup-miss", "ip-reused-by-other-pod", "phase-only-update", "deletion-timestamp-update", "label-edit", "annotation-edit", "ip-changed", "ip-unset", "delete", "lookup-before-pod-exists",
 		"host-network-pod", "tag-group-empty-falls-back-to-key", "regex-without-group", "via-ipsink", "racing-lookup", "partition", "tombstone-delete-after-relist", "changed-while-partitioned", "key-swapped-in-one-update", "two-changes-in-one-race-window", "informer-resync", "lookup-begun-while-another-is-parked", "label-and-annotation-gain-the-same-tag", "sink-requests-pile-up")
 	labelRes := []string{"", "^app$", "^(?:app|team/(?P<tag>.+))$", "^tier(?P<tag>.*)$", "^nomatch$", "^team/(.+)$", "^(?:tier-(?P<tag>.+)|team/(?P<tag>.+)|note)$"}
 	annRes := []string{k8s.DefaultAnnotationTagRegex, "", "^gostatsd\\.atlassian\\.com/(?P<tag>.*)$", "^note$", "^(?P<tag>x)?note$"}
@@ -406,6 +418,16 @@ func (c13) Run(e *Env) {
 				p.hostNetwork = e.Chance(2, 3) // otherwise only recognisable by its address being the node's
 				p.ip = c13HostIP
 				e.Probe("host-network-pod")
+			} else if e.Chance(1, 8) {
+				// declared host-network, but the address it reports is not the one the status names as the
+				// node's (not reported yet, or a node with two addresses): only the spec says what it is
+				p.hostNetwork = true
+				p.hostIPMode = 1 + e.Draw(2)
+				p.ip = freeIP()
+				if e.Bool() && len(ips) > 0 {
+					p.ip = ips[e.Draw(len(ips))] // possibly an address an ordinary pod holds or held
+				}
+				e.Probe("host-network-pod-on-ordinary-address")
 			}
 			for i, n := 0, e.Draw(3); i < n; i++ {
 				p.labels[labelKeys[e.Draw(len(labelKeys))]] = val("l", 3)
